@@ -94,10 +94,19 @@ class Gen:
         r = self.rng
         vars_ = list(vars_)
         pad = '    ' * ind
-        for _ in range(n):
+        first = len(self.lines)
+        for _ in range(n + 1):
+            if _ == n:
+                # a block must not be empty
+                if len(self.lines) > first:
+                    break
+                v = self.fresh()
+                self.lines.append(f'{pad}{v} = {self.expr(vars_, 1, ctx)}')
+                vars_.append((v, ctx))
+                break
             kinds = ['assign', 'assign', 'assign', 'aug']
             if depth > 0:
-                kinds += ['with', 'with', 'if', 'for', 'while', 'listop', 'call', 'intblock']
+                kinds += ['with', 'with', 'if', 'for', 'while', 'listop', 'call', 'intblock', 'barecall']
             kind = r.choice(kinds)
             if kind == 'assign':
                 v = self.fresh()
@@ -114,6 +123,16 @@ class Gen:
                 self.lines.append(f'{pad}with {c2}:')
                 inner = self.block(vars_, ind + 1, depth - 1, r.randint(1, 3), c2, lists)
                 vars_ = inner
+            elif kind == 'barecall':
+                # a directed-mode block whose only content is a call of a helper WITHOUT its own context: the callee
+                # inherits the block's context, so the block has to set the hardware mode although it holds no operation
+                c2 = r.choice(['F64Z', 'F64P', 'F64N'])
+                src = r.choice([v for v, c in vars_ if c in ('fp.FP64', 'F64Z', 'F64P', 'F64N')] or ['x'])
+                v = self.fresh()
+                self.features.add('barecall')
+                self.lines.append(f'{pad}with {c2}:')
+                self.lines.append(f'{pad}    {v} = h2({src})')
+                vars_.append((v, c2))
             elif kind == 'intblock':
                 c2 = r.choice(INT_CTXS)
                 self.features.add('int')
@@ -190,6 +209,7 @@ class Gen:
                       '@fp.fpy(ctx=fp.FP64)', 'def h0(zs: list[fp.Real], z: fp.Real) -> fp.Real:', '    zs[0] = zs[0] + z', '    return zs[0] * z', '',
                       '@fp.fpy(ctx=fp.FP64)', 'def h1(zs: list[fp.Real], z: fp.Real) -> fp.Real:', '    t = zs[1]', '    zs[1] = z', '    with F64Z:',
                       '        u = t / 3', '    return u - zs[0]', '']
+        self.lines += ['@fp.fpy', 'def h2(z: fp.Real) -> fp.Real:', '    return z / 3 + z * fp.round(0.1)', '']
         self.ctx = 'fp.FP64'
         self.lines += ['@fp.fpy(ctx=fp.FP64)', 'def f(x: fp.Real, y: fp.Real, xs: list[fp.Real]):']
         lists = ['xs']
